@@ -61,7 +61,7 @@ type c15Spec struct {
 }
 
 var (
-	c15PRMBad = []string{"404", "500", "neterr", "timeout", "badct", "badjson", "res-host", "res-suffix", "res-path", "res-scheme", "res-port", "res-empty",
+	c15PRMBad = []string{"404", "500", "neterr", "timeout", "badct", "badjson", "res-host", "res-suffix", "res-path", "res-scheme", "res-port", "res-empty", "res-prefix", "res-parent",
 		"as-http", "as-http-second", "as-js", "as-js-second", "as-data", "as-vbscript-second", "as-empty", "as-http-lookalike"}
 	c15PRMOk  = []string{"ok", "ok", "ok", "ok-2as"}
 	c15ASMBad = []string{"404", "404", "410", "500", "503", "neterr", "timeout", "badct", "badjson", "empty-object",
@@ -155,7 +155,7 @@ func genC15(r *vh.Rand, idx int) c15Spec {
 			}
 		case 8:
 			if r.Chance(1, 2) {
-				s.DCR = r.Choose("400", "500", "noid", "redirect-js", "neterr", "logo-data", "badjson")
+				s.DCR = r.Choose("400", "500", "noid", "redirect-js", "neterr", "logo-data", "badjson", "redirect-js-200", "logo-data-200", "client-uri-vbscript", "tos-js-200", "policy-data", "jwks-js-200")
 				if !strings.Contains(s.Reg, "dcr") && s.Reg != "all" {
 					s.Reg = "dcr"
 				}
@@ -482,6 +482,16 @@ func (w *c15World) servePRM(req *http.Request, loc int, asked string) (*http.Res
 		resource = c15MangleIssuer(asked, "port")
 	case "res-empty":
 		resource = ""
+	case "res-prefix":
+		// a proper string prefix of what was asked for (a different resource, possibly a different origin)
+		resource = asked[:len(asked)-2]
+	case "res-parent":
+		// the bare origin of what was asked for; the same resource only when the asked URL has no path
+		resource = au.Scheme + "://" + au.Host
+		if au.Path == "" || au.Path == "/" {
+			d.acceptable = true
+			delete(w.rejectSeen, "prm:"+variant)
+		}
 	case "as-http":
 		as = []string{"http://as-" + m + ".example"}
 	case "as-http-lookalike":
@@ -627,6 +637,22 @@ func (w *c15World) serveDCR(req *http.Request, body string) (*http.Response, str
 		doc["redirect_uris"] = []string{"javascript:alert(1)//" + m}
 	case "logo-data":
 		doc["logo_uri"] = "data:image/svg+xml," + m
+	case "redirect-js-200":
+		status = 200
+		doc["redirect_uris"] = []string{"http://localhost:3000/cb", "JavaScript:alert(1)//" + m}
+	case "logo-data-200":
+		status = 200
+		doc["logo_uri"] = "data:image/svg+xml," + m
+	case "client-uri-vbscript":
+		doc["client_uri"] = "vbscript:msgbox//" + m
+	case "tos-js-200":
+		status = 200
+		doc["tos_uri"] = "javascript:alert(1)//" + m
+	case "policy-data":
+		doc["policy_uri"] = "data:text/html," + m
+	case "jwks-js-200":
+		status = 200
+		doc["jwks_uri"] = "javascript:alert(1)//" + m
 	}
 	return jsonResp(req, status, "application/json", vh.JSON(doc)), ""
 }
